@@ -815,4 +815,244 @@ theorem cluster_published {c : Cluster K} (h : CInv c) (h2 : CInv2 c) (hs : CStr
       rw [← hcur]
       exact hst i hi hb hm
 
+/-! ### every fan-out has its own pool tasks; the session layer -/
+
+/-- Two fan-outs never share a pool task: each delivery creates a fresh one. -/
+def SentInj (c : Cluster K) : Prop :=
+  ∀ f ∈ c.fanouts, ∀ f' ∈ c.fanouts, ∀ n tid, f.sent.lookup n = some tid → f'.sent.lookup n = some tid → f.id = f'.id
+
+theorem sentInj_step {c : Cluster K} (h : CInv c) (hi : SentInj c) (e : CEv K) : SentInj (cstep c e) := by
+  cases e with
+  | useKs k =>
+    simp only [cstep]
+    intro f hf f' hf' n tid hl hl'
+    simp only [List.mem_cons] at hf hf'
+    rcases hf with rfl | hf
+    · simp at hl
+    · rcases hf' with rfl | hf'
+      · simp at hl'
+      · exact hi f hf f' hf' n tid hl hl'
+  | deliver fid n =>
+    simp only [cstep]
+    split
+    · exact hi
+    · rename_i f0 hfind
+      have hfm := List.mem_of_find?_eq_some hfind
+      have hfid : f0.id = fid := by simpa using List.find?_some hfind
+      subst hfid
+      split
+      · exact hi
+      · -- a sent entry of the modified list: an old one, or the fresh task of pool `n`
+        have hback : ∀ g ∈ modifyFanout c.fanouts f0.id (fun f' => { f' with sent := (n, (c.pools n).tasks.length) :: f'.sent }),
+            ∀ m tid, g.sent.lookup m = some tid →
+              (∃ g0 ∈ c.fanouts, g0.id = g.id ∧ g0.sent.lookup m = some tid) ∨
+              (g.id = f0.id ∧ m = n ∧ tid = (c.pools n).tasks.length) := by
+          intro g hg m tid hl
+          obtain ⟨g0, hg0, rfl⟩ := mem_modifyFanout.mp hg
+          split at hl
+          · rename_i hid
+            simp only [List.lookup_cons] at hl
+            split at hl
+            · rename_i heq
+              simp only [beq_iff_eq] at heq
+              simp only [Option.some.injEq] at hl
+              right; simp only [hid, ↓reduceIte]; exact ⟨trivial, heq, hl.symm⟩
+            · left; exact ⟨g0, hg0, by simp [hid], hl⟩
+          · rename_i hid
+            left; exact ⟨g0, hg0, by simp [hid], hl⟩
+        intro f hf f' hf' m tid hl hl'
+        rcases hback f hf m tid hl with ⟨g0, hg0, hid0, hl0⟩ | ⟨hid0, hm, ht⟩
+        · rcases hback f' hf' m tid hl' with ⟨g1, hg1, hid1, hl1⟩ | ⟨hid1, hm1, ht1⟩
+          · rw [← hid0, ← hid1]; exact hi g0 hg0 g1 hg1 m tid hl0 hl1
+          · subst hm1 ht1
+            have := sent_lt h g0 hg0 m _ hl0
+            omega
+        · rcases hback f' hf' m tid hl' with ⟨g1, hg1, hid1, hl1⟩ | ⟨hid1, hm1, ht1⟩
+          · subst hm ht
+            have := sent_lt h g1 hg1 m _ hl1
+            omega
+          · rw [hid0, hid1]
+  | pool n e => simp only [cstep]; split <;> exact hi
+  | addNode perShard target => simp only [cstep]; exact hi
+  | removeNode n => simp only [cstep]; exact hi
+  | fanoutFinish fid =>
+    simp only [cstep]
+    split
+    · exact hi
+    · split
+      · exact hi
+      · intro f hf f' hf' m tid hl hl'
+        obtain ⟨g0, hg0, rfl⟩ := mem_modifyFanout.mp hf
+        obtain ⟨g1, hg1, rfl⟩ := mem_modifyFanout.mp hf'
+        have hl0 : g0.sent.lookup m = some tid := by split at hl <;> exact hl
+        have hl1 : g1.sent.lookup m = some tid := by split at hl' <;> exact hl'
+        have := hi g0 hg0 g1 hg1 m tid hl0 hl1
+        split <;> split <;> exact this
+
+theorem sentInj_run (perShard : Bool) (target : Nat) (evs : List (CEv K)) :
+    SentInj (crun (Cluster.init perShard target : Cluster K) evs) := by
+  unfold crun
+  have base : CInv (Cluster.init perShard target : Cluster K) ∧ SentInj (Cluster.init perShard target : Cluster K) :=
+    ⟨cinv_init _ _, by intro f hf; simp [Cluster.init] at hf⟩
+  generalize (Cluster.init perShard target : Cluster K) = c0 at base
+  induction evs generalizing c0 with
+  | nil => exact base.2
+  | cons e es ih => exact ih (cstep c0 e) ⟨cinv_step base.1 e, sentInj_step base.1 base.2 e⟩
+
+/-- A fan-out keeps its id and keyspace. -/
+theorem fanout_persists (c : Cluster K) (e : CEv K) (f : Fanout K) (hf : f ∈ c.fanouts) :
+    ∃ f' ∈ (cstep c e).fanouts, f'.id = f.id ∧ f'.ks = f.ks := by
+  have hmod : ∀ (fid : Nat) (g : Fanout K → Fanout K), (∀ x, (g x).id = x.id ∧ (g x).ks = x.ks) →
+      ∃ f' ∈ modifyFanout c.fanouts fid g, f'.id = f.id ∧ f'.ks = f.ks := by
+    intro fid g hg
+    refine ⟨_, mem_modifyFanout.mpr ⟨f, hf, rfl⟩, ?_⟩
+    split
+    · exact hg f
+    · exact ⟨rfl, rfl⟩
+  cases e with
+  | useKs k => exact ⟨f, by simp only [cstep]; exact List.mem_cons_of_mem _ hf, rfl, rfl⟩
+  | deliver fid n =>
+    simp only [cstep]
+    split
+    · exact ⟨f, hf, rfl, rfl⟩
+    · split
+      · exact ⟨f, hf, rfl, rfl⟩
+      · exact hmod _ _ (fun x => ⟨rfl, rfl⟩)
+  | pool n e => simp only [cstep]; split <;> exact ⟨f, hf, rfl, rfl⟩
+  | addNode perShard target => exact ⟨f, hf, rfl, rfl⟩
+  | removeNode n => exact ⟨f, hf, rfl, rfl⟩
+  | fanoutFinish fid =>
+    simp only [cstep]
+    split
+    · exact ⟨f, hf, rfl, rfl⟩
+    · split
+      · exact ⟨f, hf, rfl, rfl⟩
+      · exact hmod _ _ (fun x => ⟨rfl, rfl⟩)
+
+theorem verifiedName_new_ok {s : String} {cs : Bool} {v : VerifiedName} (h : VerifiedName.new s cs = .ok v) :
+    v = ⟨s, cs⟩ := by
+  unfold VerifiedName.new at h
+  split at h
+  · cases h; rfl
+  · cases h
+
+/-- The cluster of a session run is the cluster of a worker run: the calls with valid names are its requests. -/
+theorem srun_cluster (perShard : Bool) (target : Nat) (evs : List SEv) :
+    ∃ cevs, (srun (Session.init perShard target) evs).cluster = crun (Cluster.init perShard target) cevs := by
+  suffices h : ∀ (s : Session), (∃ cevs, s.cluster = crun (Cluster.init perShard target) cevs) →
+      ∃ cevs, (srun s evs).cluster = crun (Cluster.init perShard target) cevs from
+    h _ ⟨[], rfl⟩
+  induction evs with
+  | nil => intro s hs; exact hs
+  | cons e es ih =>
+    intro s ⟨cevs, hc⟩
+    apply ih
+    cases e with
+    | call name cs =>
+      simp only [sstep]
+      split
+      · exact ⟨cevs, hc⟩
+      · rename_i v _
+        refine ⟨cevs ++ [.useKs v], ?_⟩
+        simp only [crun, List.foldl_append, List.foldl_cons, List.foldl_nil]
+        rw [hc]; rfl
+    | cluster ce =>
+      simp only [sstep]
+      split
+      · exact ⟨cevs, hc⟩
+      · refine ⟨cevs ++ [ce], ?_⟩
+        simp only [crun, List.foldl_append, List.foldl_cons, List.foldl_nil]
+        rw [hc]; rfl
+
+/-- Calls and fan-outs correspond: a call with a valid name owns the fan-out it created (same name, same flag);
+a rejected call had an invalid name; there are exactly as many fan-outs as calls with a valid name. -/
+structure SInv (s : Session) : Prop where
+  owns : ∀ c ∈ s.calls, ∀ fid, c.outcome = .fanout fid →
+    fid < s.cluster.fanouts.length ∧ ∃ f ∈ s.cluster.fanouts, f.id = fid ∧ f.ks = ⟨c.name, c.caseSensitive⟩
+  rejected : ∀ c ∈ s.calls, ∀ e, c.outcome = .rejected e → VerifiedName.new c.name c.caseSensitive = .error e
+  distinct : s.calls.Pairwise fun a b => ∀ fid, a.outcome = .fanout fid → b.outcome ≠ .fanout fid
+
+theorem fanouts_length_mono (c : Cluster VerifiedName) (e : CEv VerifiedName) :
+    c.fanouts.length ≤ (cstep c e).fanouts.length := by
+  cases e <;> simp only [cstep]
+  · simp
+  · split
+    · exact Nat.le_refl _
+    · split
+      · exact Nat.le_refl _
+      · simp [modifyFanout]
+  · split <;> exact Nat.le_refl _
+  · exact Nat.le_refl _
+  · exact Nat.le_refl _
+  · split
+    · exact Nat.le_refl _
+    · split
+      · exact Nat.le_refl _
+      · simp [modifyFanout]
+
+theorem sinv_step {s : Session} (h : SInv s) (e : SEv) : SInv (sstep s e) := by
+  have hcl : ∀ ce : CEv VerifiedName, ∀ c ∈ s.calls, ∀ fid, c.outcome = .fanout fid →
+      fid < (cstep s.cluster ce).fanouts.length ∧
+      ∃ f ∈ (cstep s.cluster ce).fanouts, f.id = fid ∧ f.ks = ⟨c.name, c.caseSensitive⟩ := by
+    intro ce c hc fid ho
+    obtain ⟨hlt, f, hf, hid, hks⟩ := h.owns c hc fid ho
+    obtain ⟨f', hf', hid', hks'⟩ := fanout_persists s.cluster ce f hf
+    exact ⟨Nat.lt_of_lt_of_le hlt (fanouts_length_mono _ _), f', hf', by rw [hid', hid], by rw [hks', hks]⟩
+  cases e with
+  | call name cs =>
+    simp only [sstep]
+    split
+    · rename_i e' hnew
+      constructor
+      · intro c hc fid ho
+        simp only [List.mem_cons] at hc
+        rcases hc with rfl | hc
+        · cases ho
+        · exact h.owns c hc fid ho
+      · intro c hc e'' ho
+        simp only [List.mem_cons] at hc
+        rcases hc with rfl | hc
+        · simp only [CallOutcome.rejected.injEq] at ho; subst ho; exact hnew
+        · exact h.rejected c hc e'' ho
+      · simp only [List.pairwise_cons]
+        exact ⟨fun b _ fid ho => (by cases ho), h.distinct⟩
+    · rename_i v hnew
+      have hv := verifiedName_new_ok hnew
+      constructor
+      · intro c hc fid ho
+        simp only [List.mem_cons] at hc
+        rcases hc with rfl | hc
+        · simp only [CallOutcome.fanout.injEq] at ho
+          subst ho
+          simp only [cstep, List.length_cons]
+          refine ⟨Nat.lt_succ_self _, _, List.mem_cons_self, rfl, ?_⟩
+          simp only; exact hv
+        · exact hcl (.useKs v) c hc fid ho
+      · intro c hc e'' ho
+        simp only [List.mem_cons] at hc
+        rcases hc with rfl | hc
+        · cases ho
+        · exact h.rejected c hc e'' ho
+      · simp only [List.pairwise_cons]
+        refine ⟨fun b hb fid ho hb' => ?_, h.distinct⟩
+        simp only [CallOutcome.fanout.injEq] at ho
+        subst ho
+        have := (h.owns b hb _ hb').1
+        omega
+  | cluster ce =>
+    simp only [sstep]
+    split
+    · exact h
+    · exact ⟨fun c hc fid ho => hcl ce c hc fid ho, h.rejected, h.distinct⟩
+
+theorem sinv_run (perShard : Bool) (target : Nat) (evs : List SEv) :
+    SInv (srun (Session.init perShard target) evs) := by
+  unfold srun
+  have base : SInv (Session.init perShard target) := by
+    constructor <;> simp [Session.init]
+  generalize Session.init perShard target = s0 at base
+  induction evs generalizing s0 with
+  | nil => exact base
+  | cons e es ih => exact ih (sstep s0 e) (sinv_step base e)
+
 end ScyllaVerif.Keyspace
